@@ -104,6 +104,29 @@ fn run(tier: String) -> i32 {
         }
     }
 
+    // ---- the assembler written in Dora (same-named methods, same oracle): started first, on its own thread
+    let dp = dora::DoraAsm::new();
+    let dora_sel: Option<Vec<Inst>> = match dora::available() {
+        Ok(()) => {
+            let mut sel = if ctx.thorough() { dora::select(&enc::sweep(), 2, 1) } else { dora::select(&enc::sweep(), 6, 5) };
+            // the reproducers of the open findings of this sub-check ride along in the same compilation
+            // (one `dora compile` per reproducer would dominate the quick tier)
+            for k in load_known_findings() {
+                if k.property == "C08" && k.status == "open" && k.sub == "dora-assembler" {
+                    if let Some(b) = dp.from_rendered(&k.reproducer) {
+                        sel.extend(b.insts);
+                    }
+                }
+            }
+            dp.prefetch(sel.clone());
+            Some(sel)
+        }
+        Err(e) => {
+            ctx.extra.insert("dora_assembler_subcheck".into(), json!(format!("skipped: {e}")));
+            None
+        }
+    };
+
     // ---- encoding
     let batch = 2500usize;
     let ep = Encoding::new(batch);
@@ -129,28 +152,12 @@ fn run(tier: String) -> i32 {
     // ---- helper predicates
     preds::run(&mut ctx);
 
-    // ---- the assembler written in Dora (same-named methods, same oracle)
-    let dp = dora::DoraAsm::new();
-    match dora::available() {
-        Ok(()) => {
-            ctx.run_regressions(&dp);
-            let mut sel = if ctx.thorough() { dora::select(&enc::sweep(), 2, 1) } else { dora::select(&enc::sweep(), 6, 5) };
-            // the reproducers of the open findings of this sub-check ride along in the same compilation
-            // (one `dora compile` per reproducer would dominate the quick tier)
-            for k in load_known_findings() {
-                if k.property == "C08" && k.status == "open" && k.sub == "dora-assembler" {
-                    if let Some(b) = dp.from_rendered(&k.reproducer) {
-                        sel.extend(b.insts);
-                    }
-                }
-            }
-            ctx.run_enum(&dp, vec![Batch { insts: sel }]);
-            if ctx.thorough() {
-                ctx.run_search(&dp, 6, 4000 * 9, 0);
-            }
-        }
-        Err(e) => {
-            ctx.extra.insert("dora_assembler_subcheck".into(), json!(format!("skipped: {e}")));
+    // ---- the assembler written in Dora: results of the thread started above
+    if let Some(sel) = dora_sel {
+        ctx.run_regressions(&dp);
+        ctx.run_enum(&dp, vec![Batch { insts: sel }]);
+        if ctx.thorough() {
+            ctx.run_search(&dp, 6, 4000 * 9, 0);
         }
     }
 
@@ -178,6 +185,17 @@ fn run(tier: String) -> i32 {
         *ctx.classes.entry(format!("dora-assembler/{k}")).or_insert(0) += v;
     }
     ctx.nontrivial.extend(ds.nontrivial.iter().copied());
+    // a batch reports one failure to the engine; the per-instance counts of known findings are exact
+    for classes in [&es.classes, &ls.classes, &ds.classes] {
+        for (c, n) in classes.iter() {
+            if let Some(key) = c.strip_prefix("known-finding/") {
+                if let Some(k) = ctx.known.iter().find(|k| k.property == "C08" && k.status == "open" && (k.key == key || k.key.strip_suffix('*').map(|p| key.starts_with(p)).unwrap_or(false))) {
+                    let label = format!("{} [{}]", k.what, k.key);
+                    ctx.known_hit.insert(label, *n);
+                }
+            }
+        }
+    }
     if ds.compared > 0 || !ds.harness_errors.is_empty() {
         let mut mc: Vec<&&str> = ds.methods_compared.iter().collect();
         mc.sort();
